@@ -29,6 +29,10 @@ import SpdxVerif.Props.C05Text
 #print axioms Spdx.scan_append
 #print axioms Spdx.C05.accepts_spaced_iff
 #print axioms Spdx.C05.parse_spaced
+#print axioms Spdx.C05.accepts_layout_iff
+#print axioms Spdx.C05.parse_layout
+#print axioms Spdx.C05.layout_irrelevant
 #print axioms Spdx.C05.word_recognised_iff
 #print axioms Spdx.C05.word_plus_recognised_iff
 #print axioms Spdx.toks_spaced
+#print axioms Spdx.toks_laidOut
